@@ -3,6 +3,7 @@
 green, against the fallback checks named below). Writes seeded/RESULTS.json.
 usage: mutsweep.py [name-prefix]"""
 import json, os, subprocess, sys, glob, time
+RESULTS = os.environ.get("VERIF_SWEEP_OUT", "/verif/seeded/RESULTS.json")  # a second sweep with another VERIF_SEED writes elsewhere
 fallback = {  # changes whose violation is only observable through another property's check
  "C11-m3": ["C13"], "C11-w2m3": ["C13"],   # Channel.write without its default branch: the node blocks (C13)
  "C02-w3m2": ["C15"], "C16-w3m2": ["C15"], # state shared between goroutines: a data race (C15)
@@ -13,11 +14,14 @@ fallback = {  # changes whose violation is only observable through another prope
  "C02-w5m2": ["C15"], "C06-w5m2": ["C15"],  # package-level scratch buffers: data races
  "C13-w5m2": ["C12", "C14"],                # the same change as C12-w5m1 (transport closed after waiting for the writer on the read-error path)
  "C15-w5m2": ["C11"],                       # writer not awaited after a read error: two writers on one custom transport (C11 whole-frames)
+ "C08-w6m2": ["C15"],                       # one package-level checksum hasher: a data race
+ "C09-w6m1": ["C14"], "C10-w6m1": ["C14"],  # broadcast SetDeadline instead of SetWriteDeadline: spontaneous read timeouts (C14 close-cause); C10 runs spin in the open/close storm
+ "C09-w6m2": ["C11"],                       # writer awaited only for WriteTimeout after a read error: two writers on one custom transport
 }
 pref = sys.argv[1] if len(sys.argv) > 1 else ""
 out = {}
-if os.path.exists("/verif/seeded/RESULTS.json"):
-    out = json.load(open("/verif/seeded/RESULTS.json"))
+if os.path.exists(RESULTS):
+    out = json.load(open(RESULTS))
 for d in sorted(glob.glob("/verif/seeded/*/")):
     name = os.path.basename(d.rstrip("/"))
     if not name.startswith(pref) or not os.path.exists(d + "patch.diff"):
@@ -27,16 +31,16 @@ for d in sorted(glob.glob("/verif/seeded/*/")):
     r = subprocess.run(["python3", "/verif/tools/mutcheck.py", d + "patch.diff", prop, name], stdout=subprocess.PIPE, stderr=subprocess.STDOUT)
     res = json.loads(r.stdout.decode().strip().splitlines()[-1])
     c = res["checks"].get(prop, {"exit": -1, "head": "not run"})
-    entry = {"own_check": prop, "own_exit": c["exit"], "own_first": " / ".join([x for x in c["head"].splitlines() if x.strip()][:3])[:500], "caught_by": prop if c["exit"] == 1 else None}
+    entry = {"own_check": prop, "own_exit": c["exit"], "own_first": " / ".join([x for x in c["head"].splitlines() if x.strip()][:3])[:500], "caught_by": prop if c["exit"] == 1 else None, "own_failing_runs": c.get("failing_runs")}
     if c["exit"] != 1:
         for fb in fallback.get(name, []):
             r = subprocess.run(["python3", "/verif/tools/mutcheck.py", d + "patch.diff", fb, name], stdout=subprocess.PIPE, stderr=subprocess.STDOUT)
             res = json.loads(r.stdout.decode().strip().splitlines()[-1])
             c2 = res["checks"].get(fb, {"exit": -1, "head": ""})
-            entry["fallback_" + fb] = {"exit": c2["exit"], "first": " / ".join([x for x in c2["head"].splitlines() if x.strip()][:3])[:500]}
+            entry["fallback_" + fb] = {"exit": c2["exit"], "failing_runs": c2.get("failing_runs"), "first": " / ".join([x for x in c2["head"].splitlines() if x.strip()][:3])[:500]}
             if c2["exit"] == 1:
                 entry["caught_by"] = fb
                 break
     out[name] = entry
-    json.dump(out, open("/verif/seeded/RESULTS.json", "w"), indent=1, sort_keys=True)
+    json.dump(out, open(RESULTS, "w"), indent=1, sort_keys=True)
     print(name, entry["own_exit"], entry["caught_by"], flush=True)
